@@ -176,7 +176,9 @@ def c10():
         cmds = []
         for ci, (be, k, m, hd) in enumerate(wire_configs(thorough)):
             for L in ([0, 1, 17, 64, 131] if thorough else [1 + ci, 40 + li]):
-                cmds.append(enc_cmd(be, k, m, hd, 2, L, _seed_of(chk, L + ci), 1))
+                # ... and every fragment rebuilt by reconstruct while the switch has the OTHER meaning (RecB events)
+                other = "-" if leg not in (None, "", "0") else ("1" if (ci + li) % 2 else "yes")
+                cmds.append(enc_cmd(be, k, m, hd, 2, L, _seed_of(chk, L + ci), 1) + " " + other)
         env = {} if leg is None else {"LIBERASURECODE_WRITE_LEGACY_CRC": leg}
         v2, f2 = _run(chk, cmds, "C10-leg%d" % li, ["C10", "C07 fragment bytes", "C07 header bytes", "fault"], env=env, max_lines=300)
         chk.parts["writer_events_legacy_%s" % ("unset" if leg is None else repr(leg))] = (v2.counts or [0] * 3)[1]
